@@ -379,7 +379,7 @@ func ExecOp(h *DBH, tx *nutsdb.Tx, op Op) (res Res) {
 		// an entry larger than the segment size: accepted by Put, rejected by Commit.
 		// I == 0: a value of SegmentSize+1 bytes; I > 0: the whole entry is exactly I bytes too large (boundary)
 		n := h.Cfg.Seg + 1
-		if op.I > 0 {
+		if op.I > 0 && op.I <= 64 {
 			n = h.Cfg.Seg - 42 - int64(len(b)) - int64(len(op.Key)) + int64(op.I)
 			if n < 0 {
 				n = h.Cfg.Seg + 1
